@@ -730,3 +730,43 @@ class C11(Base):
 
 
 C11.level_note = Base.level_note + FLOAT_NOTE
+
+
+@prop("C06")
+class C06(Base):
+    title = "angle and axis-angle constructors give proper right-handed rotations"
+    design_ref = "§6 C06"
+    ops = ["m2.from_angle", "m2.from_angle_deg", "m3.from_angle_x", "m3.from_angle_y", "m3.from_angle_z",
+           "m3.from_axis_angle", "m3.from_axis_angle_deg", "m4.from_angle_x", "m4.from_angle_x_deg", "m4.from_angle_y",
+           "m4.from_angle_z", "m4.from_axis_angle", "b3.from_angle_x", "b3.from_angle_y", "b3.from_angle_z",
+           "b3.from_axis_angle", "q.from_angle_x", "q.from_angle_y", "q.from_angle_z", "q.from_axis_angle",
+           "q.from_axis_angle_deg", "b2.one", "b2.from_angle", "b2.from_angle_deg", "b2.mul", "b2.rotate_vector",
+           "b2.rotate_point", "b2.invert", "b2.product_list", "b3.one", "b3.mul", "b3.rotate_vector",
+           "b3.rotate_point", "b3.invert", "q.invert", "q.rotate_point", "q.rotate_vector",
+           "deg.to_rad", "rad.sin_cos"]
+    oracle_ops = ["o.rot.axis_angle"]
+    native_args = float_args("c06")
+
+    def families(self, rng, tier):
+        out = []
+        reps = 8 if tier == "quick" else 300
+        for _ in range(reps):
+            a = rng.unit_vec3()
+            t = rng.rat()
+            for op in ("m3.from_axis_angle", "m4.from_axis_angle", "b3.from_axis_angle", "q.from_axis_angle",
+                       "m3.from_axis_angle_deg", "q.from_axis_angle_deg"):
+                out.append(Case(op, a + [t], family="unit-axis"))
+            # non-unit / zero axis: still the same composition of operations
+            out.append(Case("m3.from_axis_angle", rng.distinct(3) + [t], family="non-unit-axis"))
+            out.append(Case("q.from_axis_angle", [F(0)] * 3 + [t], family="zero-axis"))
+        return out
+
+    def oracle_cases(self, rng, tier):
+        out = []
+        k = 30 if tier == "quick" else 1500
+        for _ in range(k):
+            out.append(Case("o.rot.axis_angle", rng.unit_vec3() + [rng.rat()] + rng.distinct(3), family="oracle"))
+        return out
+
+
+C06.level_note = Base.level_note + FLOAT_NOTE
